@@ -190,6 +190,11 @@ class ScriptRig:
             delay = max(0.0, at - self.loop.time())
         self.n2h.put(data, delay)
 
+    def peer_send_at(self, frame_wo_crc: bytes, at: float):
+        """Emit the frame at virtual time `at` (a timer, so emissions need not be enqueued in time order)."""
+        data = R.wire(frame_wo_crc)
+        self.loop.external(at, self.n2h.put, data, 0.0, group="peer-emit")
+
     def peer_send_bytes(self, data: bytes, delay: float = 0.0):
         self.n2h.put(data, delay)
 
